@@ -1092,7 +1092,7 @@ func main() {
 			if tier == "thorough" {
 				return 17 * time.Minute
 			}
-			return 70 * time.Second
+			return 55 * time.Second
 		},
 	})
 }
